@@ -245,6 +245,16 @@ theorem qltlvIcon_ledger (c : Cfg) (g : Glob) (w : World) (st : St) (img : List 
       constructor
       · rw [h.1]; omega
       · rw [h.2]; omega
+    · next hg =>
+      split
+      · refine accounted_same ?_ (sendLarge_same c _ _ img _ _)
+        unfold Accounted retained retainedBytes iconBlocks iconBytes World.rawAlloc at *
+        simp only [hnone] at h
+        simp only []
+        constructor
+        · rw [h.1]; omega
+        · rw [h.2]; simp
+      · exact accounted_same h (sendLarge_same c w _ img _ _)
     · exact accounted_same h (sendLarge_same c w _ img _ _)
 
 theorem rawAlloc_then_free (w w' : World) (n : Nat) (hs : (w.rawAlloc n).same w') : w.same (w'.free n) := by
